@@ -216,3 +216,12 @@ func init() {
 		return one(st, v, f)
 	})
 }
+
+// Calling a context.CancelFunc (a function value of that named type) is recorded as a ghost event of the
+// path: flag("cancelcalled") in contracts.
+func init() {
+	reg("dyn:context.CancelFunc", func(x *Exec, st *State, c *CallCtx) []Outcome {
+		st.Flags["cancelcalled"] = true
+		return one(st)
+	})
+}
